@@ -234,7 +234,10 @@ fn render(t: &Template, chosen: &[Slot], double: bool) -> (String, Vec<(String, 
     for (i, ln) in t.lines.iter().enumerate() {
         out.push_str(ln.text);
         if let Some(s) = chosen.iter().find(|s| s.line == i && s.eol) {
-            out.push_str(" ");
+            // index brackets admit a comment only directly before the line break (no blank)
+            if s.kind != K::Silent("index-brackets") {
+                out.push(' ');
+            }
             out.push_str(&next(s.kind, &mut placed));
         }
         out.push('\n');
